@@ -11,6 +11,7 @@ from harness.extract import database_tr as x_tr
 from harness.extract import database_ftp_tr as x_ftp
 from harness.extract import database_client_tr as x_cli
 from harness.extract import database_tick_tr as x_tick
+from harness.extract import database_conn_writers as x_cw
 from harness.rigs import database as rig
 
 MANIFEST = {
@@ -142,6 +143,7 @@ def run(ctx: Ctx):
         for fname, why in sorted(x_cli.FAILED.items()):
             ctx.oblige(f"translate-client:{fname}", "extractor", False, why)
         ctx.oblige("translate-client:all-10-functions", "extractor", not x_cli.FAILED, "; ".join(sorted(x_cli.FAILED)))
+        ctx.extract(x_cw.GEN_NAME, x_cw.emit)
         ctx.extract(x_tick.GEN_NAME, x_tick.emit)
         for mname, lname, _ in x_tick.ROOTS:   # tick path + life-cycle methods (round 7): one obligation per root method
             ctx.oblige(f"translate-tick:{mname}", "extractor", mname not in x_tick.FAILED, x_tick.FAILED.get(mname, ""))
